@@ -171,6 +171,22 @@ class Impl:
     def op_pt_smul(self, n, c, a): self.o[n] = self.R(c) * self.o[a]; return "ok"
     def op_pt_div(self, n, a, c): self.o[n] = self.o[a] / self.R(c); return "ok"
     def op_pt_add(self, n, a, b): self.o[n] = self.o[a] + self.o[b]; return "ok"
+    def _inplace(self, n, a, fn):
+        x = self.o[a]; x = fn(x); self.o[n] = x; return "ok"        # `x = a; x op= b`: `a` must still name the old object
+    def op_pt_iadd(self, n, a, b):
+        x = self.o[a]; x += self.o[b]; self.o[n] = x; return "ok"
+    def op_pt_isub(self, n, a, b):
+        x = self.o[a]; x -= self.o[b]; self.o[n] = x; return "ok"
+    def op_ex_iadd(self, n, a, b):
+        x = self.o[a]; x += self.o[b]; self.o[n] = x; return "ok"
+    def op_ex_isub(self, n, a, b):
+        x = self.o[a]; x -= self.o[b]; self.o[n] = x; return "ok"
+    def op_ex_iaddc(self, n, a, c):
+        x = self.o[a]; x += self.R(c); self.o[n] = x; return "ok"
+    def op_ex_imul(self, n, a, c):
+        x = self.o[a]; x *= self.R(c); self.o[n] = x; return "ok"
+    def op_pt_imul(self, n, a, c):
+        x = self.o[a]; x *= self.R(c); self.o[n] = x; return "ok"
     def op_pt_neg(self, n, a): self.o[n] = -self.o[a]; return "ok"
     def op_ex_add(self, n, a, b): self.o[n] = self.o[a] + self.o[b]; return "ok"
     def op_ex_neg(self, n, a): self.o[n] = -self.o[a]; return "ok"
@@ -215,6 +231,17 @@ class Impl:
     def op_dump_task(self):
         if self.wrapper.mw_error: return "MOSEK-ERROR " + self.wrapper.mw_error.split(":")[0].replace("AssertionError", "IndexError")
         return show_task(self.wrapper.mw.task.calls)
+    def op_dump_heur(self, seed):
+        rng = np.random.default_rng(int(seed)); n = Point.counter
+        A = rng.integers(-2, 3, size=(n, n)).astype(float); W = A + A.T
+        self.last_line = "dump.heur W=%s" % ";".join(",".join(showrat(v) for v in row) for row in W)
+        mw = self.wrapper.mw
+        k0 = len(mw.task.calls)
+        mw.heuristic(W)
+        calls = mw.task.calls[k0:]
+        sym = [c for c in calls if c[0] == "appendsparsesymmat"][0]
+        ok = any(c[0] == "putbarcj" and c[1] == 0 and list(c[3]) == [1.0] for c in calls) and any(c[0] == "putobjsense" and c[1] == "minimize" for c in calls)
+        return ("heur " if ok else "heur-bad-objective ") + canon([("%s_%s" % (pad(i), pad(j)), showrat(v)) for i, j, v in zip(sym[2], sym[3], sym[4])])
     def op_dump_dense(self):
         from PEPit.tools.expressions_to_matrices import expression_to_matrices
         items = []
@@ -402,7 +429,9 @@ def gen_collect(seed):
         cells = [expr() for _ in range(4)]; p.emit("fn.psd %s 2 " % rnd.choice(p.F) + " ".join(cells))
     for _ in range(rnd.randint(1, 2)): p.emit("pep.metric %s" % expr())
     p.emit("solve.collect"); p.emit("dump.sent"); p.emit("dump.counters")
-    if os.environ.get("PEPV_TEE"): p.emit("dump.task"); p.emit("dump.dense")
+    if os.environ.get("PEPV_TEE"):
+        p.emit("dump.task"); p.emit("dump.dense")
+        if rnd.random() < .5: p.emit("dump.heur %d" % rnd.randint(0, 10 ** 6))
     if rnd.random() < .4:
         p.emit("solve.collect"); p.emit("dump.sent"); p.emit("dump.counters")
     return p.lines
@@ -492,7 +521,7 @@ def gen_oracle(seed):
     for f in p.F: p.emit("dump.fn %s" % f); p.emit("check.afn %s" % f)
     return p.lines
 
-TW = ["1", "2", "-1", "1/2", "0", "-3/2", "4", "1/4", "3", "-2"]
+TW = ["1", "2", "-1", "1/2", "0", "-3/2", "4", "1/4", "3", "-2", "1/1125899906842624", "1125899906842624", "-1/1099511627776"]   # incl. 2^-50, 2^50, -2^-40 (exact in binary floating point)
 TD = ["2", "-1", "1/2", "4", "1/4", "-2", "0"]
 def gen_tree(seed):
     """random operator trees over points and expressions (C06): every object is dumped when it is
@@ -525,6 +554,15 @@ def gen_tree(seed):
             a = rnd.choice(p.E); d = rnd.choice(TD); n = p.newe(); p.emit("ex.div %s %s %s" % (n, a, d))
             if d == "0": p.E.pop()
             else: p.emit("dump.ex %s" % n)
+        elif r < .915:
+            k = rnd.randint(0, 6)
+            if k == 0: a, b = rnd.choice(p.P), rnd.choice(p.P); n = p.newp(); p.emit("pt.iadd %s %s %s" % (n, a, b)); p.emit("dump.pt %s" % n); p.emit("dump.pt %s" % a)
+            elif k == 1: a, b = rnd.choice(p.P), rnd.choice(p.P); n = p.newp(); p.emit("pt.isub %s %s %s" % (n, a, b)); p.emit("dump.pt %s" % n); p.emit("dump.pt %s" % a)
+            elif k == 2: a, b = rnd.choice(p.E), rnd.choice(p.E); n = p.newe(); p.emit("ex.iadd %s %s %s" % (n, a, b)); p.emit("dump.ex %s" % n); p.emit("dump.ex %s" % a)
+            elif k == 3: a, b = rnd.choice(p.E), rnd.choice(p.E); n = p.newe(); p.emit("ex.isub %s %s %s" % (n, a, b)); p.emit("dump.ex %s" % n); p.emit("dump.ex %s" % a)
+            elif k == 4: a = rnd.choice(p.E); n = p.newe(); p.emit("ex.iaddc %s %s %s" % (n, a, rnd.choice(TW))); p.emit("dump.ex %s" % n); p.emit("dump.ex %s" % a)
+            elif k == 5: a = rnd.choice(p.E); n = p.newe(); p.emit("ex.imul %s %s %s" % (n, a, rnd.choice(TW))); p.emit("dump.ex %s" % n); p.emit("dump.ex %s" % a)
+            else: a = rnd.choice(p.P); n = p.newp(); p.emit("pt.imul %s %s %s" % (n, a, rnd.choice(TW))); p.emit("dump.pt %s" % n); p.emit("dump.pt %s" % a)
         elif r < .95:
             a, b = rnd.choice(p.E), rnd.choice(p.E); c = p.newc(); p.emit("%s %s %s %s" % (rnd.choice(["cons.le", "cons.ge", "cons.eq"]), c, a, b)); p.emit("dump.cons %s" % c)
         else:
@@ -533,6 +571,47 @@ def gen_tree(seed):
     for x in p.E: p.emit("dump.ex %s" % x)
     p.emit("dump.counters")
     return p.lines
+
+
+_PAIR = re.compile(r"([A-Za-z0-9_]+):(-?\d+(?:/\d+)?)(?=[,}])")
+def _exact_double(fr):
+    try:
+        return Fr(float(fr)) == fr
+    except OverflowError:
+        return False
+def dyadic_program(lines):
+    """every scalar literal of the program is a dyadic rational (exactly representable input)"""
+    for l in lines:
+        for t in l.split()[1:]:
+            m = re.fullmatch(r"-?\d+/(\d+)", t)
+            if m:
+                d = int(m.group(1))
+                if d & (d - 1): return False
+    return True
+
+
+def same(model, impl, strict=True):
+    """compare one model line with one implementation line.  If every coefficient the (exact) model
+    prints is a double, floating point was exact on this line and the two must agree exactly (up to
+    the printing of -0/0); otherwise rounding happened in the implementation and the comparison is
+    tolerant (relative 1e-9, coefficients below 1e-9 of the largest one count as absent)."""
+    if model == impl: return True
+    mc = [Fr(v) for _, v in _PAIR.findall(model)]
+    if strict and mc and all(_exact_double(c) for c in mc):
+        strip = lambda t: _PAIR.sub(lambda m: m.group(1) + ":" + str(Fr(m.group(2))), t)
+        return strip(model) == strip(impl) or norm(model) == norm(impl) and not _PAIR.search(model)
+    def parse(t):
+        keys = {}
+        for k, v in _PAIR.findall(t): keys[k] = keys.get(k, 0.0) + float(Fr(v))
+        return keys, _PAIR.sub("", t)
+    (a, ra), (b, rb) = parse(model), parse(impl)
+    if not a and not b: return norm(model) == norm(impl)
+    if ra != rb: return norm(model) == norm(impl)
+    big = max([abs(x) for x in list(a.values()) + list(b.values())] + [1e-300])
+    for k in set(a) | set(b):
+        x, y = a.get(k, 0.0), b.get(k, 0.0)
+        if abs(x - y) > 1e-9 * big: return False
+    return True
 
 
 def norm(t):
@@ -547,6 +626,7 @@ def run_programs(progs):
     interpreter history) on the implementation and through the Lean driver; returns a report."""
     impl = Impl()
     all_lines, exp, idx = [], [], []
+    strict = {seed: dyadic_program(lines) for seed, lines in progs}
     for seed, lines in progs:
         for l in lines:
             impl.last_line = None
@@ -558,7 +638,7 @@ def run_programs(progs):
     r = subprocess.run([DRIVER], input="\n".join(all_lines) + "\n", capture_output=True, text=True)
     out = r.stdout.splitlines()
     n = min(len(out), len(exp))
-    bad = [i for i in range(n) if norm(out[i]) != norm(exp[i])]
+    bad = [i for i in range(n) if not same(out[i], exp[i], strict.get(idx[i], False))]
     if len(out) != len(exp):
         bad.append(n - 1 if n else 0)
     exact = sum(1 for i in range(n) if out[i] == exp[i])
